@@ -44,7 +44,7 @@ def ev(**k):
 
 def params(tier, seed):
     quick = tier == "quick"
-    return dict(rounds=8 if quick else 40, iters=40 if quick else 80, shards=10 if quick else 12,
+    return dict(rounds=16 if quick else 40, iters=40 if quick else 80, shards=10 if quick else 12,
                 gomaxprocs=[4, 2, 3, 6, 8][seed % 5],
                 multi_rounds=4 if quick else 12, multi_ops=60 if quick else 150, multi_threads=3 if quick else 4,
                 multi_seeds=1 if quick else 4, tlc_workers=6 if quick else 12)
